@@ -93,7 +93,12 @@ func (o *Obligation) scriptTextG(withModel, ground bool) string {
 }
 
 func runSolver(sd solverDef, script string, timeoutS int) SolveResult {
-	ctx, cancel := context.WithTimeout(context.Background(), time.Duration(timeoutS+2)*time.Second)
+	return runSolverCtx(context.Background(), sd, script, timeoutS)
+}
+
+// runSolverCtx: the solver process is killed when parent is cancelled (a racer lost).
+func runSolverCtx(parent context.Context, sd solverDef, script string, timeoutS int) SolveResult {
+	ctx, cancel := context.WithTimeout(parent, time.Duration(timeoutS+2)*time.Second)
 	defer cancel()
 	start := time.Now()
 	args := sd.args(timeoutS)
@@ -129,12 +134,15 @@ func runSolver(sd solverDef, script string, timeoutS int) SolveResult {
 
 // race runs the solvers concurrently; the first definitive answer wins.
 func race(script string, timeoutS int, which []solverDef) SolveResult {
-	type r struct{ SolveResult }
+	return raceCtx(context.Background(), script, timeoutS, which)
+}
+
+func raceCtx(parent context.Context, script string, timeoutS int, which []solverDef) SolveResult {
+	ctx, cancel := context.WithCancel(parent)
+	defer cancel() // kills the solvers still running once an answer is in
 	ch := make(chan SolveResult, len(which))
-	ctxs := make([]context.CancelFunc, 0)
-	_ = ctxs
 	for _, sd := range which {
-		go func(sd solverDef) { ch <- runSolver(sd, script, timeoutS) }(sd)
+		go func(sd solverDef) { ch <- runSolverCtx(ctx, sd, script, timeoutS) }(sd)
 	}
 	var last SolveResult
 	for i := 0; i < len(which); i++ {
@@ -198,9 +206,10 @@ func solveAll(obls []*Obligation, tier string, par int, dumpDir string) map[*Obl
 				var r2 SolveResult
 				if ground != "" {
 					// race the ground variant (instances only) against the full script
+					gctx, gcancel := context.WithCancel(context.Background())
 					gch := make(chan SolveResult, 2)
 					go func() {
-						g := runSolver(solvers[0], ground, slowT)
+						g := runSolverCtx(gctx, solvers[0], ground, slowT)
 						if g.Status != "unsat" {
 							g.Status = "unknown"
 						} else {
@@ -208,11 +217,12 @@ func solveAll(obls []*Obligation, tier string, par int, dumpDir string) map[*Obl
 						}
 						gch <- g
 					}()
-					go func() { gch <- race(script, slowT, solvers[1:]) }()
+					go func() { gch <- raceCtx(gctx, script, slowT, solvers[1:]) }()
 					r2 = <-gch
 					if r2.Status != "unsat" && r2.Status != "sat" {
 						r2 = <-gch
 					}
+					gcancel()
 				} else {
 					r2 = race(script, slowT, solvers)
 				}
